@@ -127,14 +127,23 @@ fn queue_file_range(
         let off = range.start + (blkn * bsize);
 
         pool.execute(move || {
-            let copy_result = copy_file_offset(&harc.infd, &harc.outfd, bytes, off as i64);
+            let copy_result = copy_file_offset(&harc.infd, &harc.outfd, bytes, off as i64)
+                .map_err(|e| e.to_string())
+                .and_then(|copied| {
+                    // The last holder of the handle finalises the
+                    // file; a failure there is a failed copy.
+                    match Arc::into_inner(harc) {
+                        Some(hdl) => hdl.finalise().map(|_| copied).map_err(|e| e.to_string()),
+                        None => Ok(copied),
+                    }
+                });
             let stat_result = match copy_result {
                 Ok(bytes) => {
                     stat_tx.send(StatusUpdate::Copied(bytes as u64))
                 }
                 Err(e) => {
                     error!("Error copying: aborting.");
-                    stat_tx.send(StatusUpdate::Error(XcpError::CopyError(e.to_string())))
+                    stat_tx.send(StatusUpdate::Error(XcpError::CopyError(e)))
                 }
             };
             if let Err(e) = stat_result {
@@ -159,6 +168,7 @@ fn queue_file_blocks(
 
     if handle.try_reflink()? {
         info!("Reflinked, skipping rest of copy");
+        handle.finalise()?;
         return Ok(len);
     }
 
@@ -172,20 +182,28 @@ fn queue_file_blocks(
         queue_file_range(&harc, 0..len, pool, status_channel)
     };
 
-    if probably_sparse(&harc.infd)? {
+    let queued = if probably_sparse(&harc.infd)? {
         if let Some(extents) = map_extents(&harc.infd)? {
             let sparse_map = merge_extents(extents)?;
             let mut queued = 0;
             for ext in sparse_map {
                 queued += queue_file_range(&harc, ext.into(), pool, status_channel)?;
             }
-            Ok(queued)
+            queued
         } else {
-            queue_whole_file()
+            queue_whole_file()?
         }
     } else {
-        queue_whole_file()
+        queue_whole_file()?
+    };
+
+    // If every block has already completed (or none was queued) the
+    // last reference is ours.
+    if let Some(hdl) = Arc::into_inner(harc) {
+        hdl.finalise()?;
     }
+
+    Ok(queued)
 }
 
 // Dispatch worker; receives queued files and hands them to
